@@ -321,4 +321,41 @@ mod verif_proto {
     #[kani::proof]
     #[kani::unwind(6)]
     fn proto_c15_idle_events() { idle_case(2, true); }
+
+    // reload() on a cache whose reloader thread is gone (receiver dropped) returns at once
+    // @h name=proto_reload_disconnected tier=quick timeout=600 props=C08 role=hot_reload+returns+when+the+reloader+thread+has+stopped
+    #[kani::proof]
+    #[kani::unwind(6)]
+    fn proto_reload_disconnected() {
+        let map = crate::cache::AssetMap::verif_single_shard();
+        let (tx, rx) = channel::unbounded::<CacheMessage>();
+        let answers = Arc::new(Answers::default());
+        install(&answers);
+        drop(rx);
+        let r = HotReloader { sender: tx, answers: answers.clone() };
+        fn never(_e: Ev, _a: usize) { assert!(false, "hot_reload waits for an answer although its request could not be sent: it never returns"); kani::assume(false); }
+        parking_lot::set_block_hook(Some(never));
+        r.reload(&map);
+        kani::cover!(true, "@proto_reload_disconnected: returned");
+        // the other notifications to a dead reloader are ignored as well
+        r.clear();
+        std::mem::forget((map, r));
+    }
+
+    // the event source went away while the cache is alive: the thread may exit or sleep, never spin
+    // @h name=proto_c15_events_gone tier=quick timeout=300 props=C15 kind=bounded_termination role=event+sender+dropped+while+the+cache+is+alive
+    #[kani::proof]
+    #[kani::unwind(5)]
+    fn proto_c15_events_gone() {
+        let (events_tx, events_rx) = channel::unbounded::<Events>();
+        let (tx, rx) = channel::unbounded::<CacheMessage>();
+        let answers = Arc::new(Answers::default());
+        install(&answers);
+        install_chan();
+        drop(events_tx);
+        unsafe { AT_IDLE = None; }
+        let source: Box<dyn Source> = Box::new(crate::source::Empty);
+        hot_reloading_thread(source, events_rx, rx, answers.clone());
+        std::mem::forget(tx);
+    }
 }
